@@ -60,7 +60,7 @@ let rec send_hashes b h fuel stops src size step fed =
         | O -> None
         | S fuel' ->
           let m = sub size step in
-          let want = if Nat.ltb m (coq_Bn b) then m else coq_Bn b in
+          let want = if N.ltb (N.of_nat m) b then m else coq_Bn b in
           let buf = firstn want (skipn step src) in
           let step' = add step (length buf) in
           let fed' = app fed buf in
